@@ -43,8 +43,15 @@ def rows():
             "tuner": lambda: ForecastingGridSearchCV(NaiveForecaster(), cv=SlidingWindowSplitter(fh=1, window_length=8),
                                                      param_grid={"strategy": ["last", "mean"]}),
         }
+    def unsorted(c):
+        k = c.get("variant", 0) % 3     # two neighbours swapped; the whole series reversed (a descending RangeIndex)
+        if k == 0:
+            return c["y"].iloc[[0, 2, 1] + list(range(3, c["n"]))]
+        if k == 1:
+            return c["y"].iloc[::-1]
+        return pd.Series(c["y"].values, index=pd.RangeIndex(2 * c["n"] + 2, 2, -2))
     bad_y = {
-        "unsorted_index": lambda c: c["y"].iloc[[0, 2, 1] + list(range(3, c["n"]))],
+        "unsorted_index": unsorted,
         "empty_index": lambda c: c["y"].iloc[:0],
         "multivariate_target": lambda c: pd.DataFrame({"a": c["y"], "b": c["y"]}),
         "array_target": lambda c: c["y"].values,
@@ -103,7 +110,7 @@ def rows():
             for fault in ("unsorted_index", "multivariate_target", "array_target"):
                 def faulty_u(c, mk=mk, by=bad_y[fault]):
                     f = mk().fit(c["y"].iloc[:-4], fh=[1])
-                    ynew = by({"y": c["y"].iloc[-4:], "n": 4})
+                    ynew = by({"y": c["y"].iloc[-4:], "n": 4, "variant": c["variant"]})
                     return lambda: (f.update(ynew, update_params=False), f)
 
                 def control_u(c, mk=mk):
@@ -159,6 +166,25 @@ def rows():
             f = mkr()
             return lambda: (f.fit(c["y"], fh=[1, 2]), f)
         add("reduce_%s.fit" % strat, "missing_horizon", faulty_nofh, control_fh)
+
+        # the same object has just had a fit rejected (window and horizon do not fit into the series): the horizon of
+        # the rejected call is not one this forecaster may fall back on
+        def faulty_stale(c, mkr=mkr):
+            f = mkr()
+            try:
+                f.fit(c["y"].iloc[:4], fh=[1, 2, 3])
+            except (ValueError, TypeError, NotImplementedError):
+                pass
+            return lambda: (f.fit(c["y"]), f)
+
+        def control_stale(c, mkr=mkr):
+            f = mkr()
+            try:
+                f.fit(c["y"].iloc[:4], fh=[1, 2, 3])
+            except (ValueError, TypeError, NotImplementedError):
+                pass
+            return lambda: (f.fit(c["y"], fh=[1, 2]), f)
+        add("reduce_%s.fit" % strat, "missing_horizon_after_rejected_fit", faulty_stale, control_stale)
 
         def faulty_diff(c, mkr=mkr):
             f = mkr().fit(c["y"], fh=[1, 2])
@@ -232,7 +258,7 @@ def rows():
             add(sname + ".split", fault, faulty_sp, control_sp)
 
         def faulty_us(c, mk=mk):
-            return lambda: (list(mk().split(c["y"].iloc[[1, 0] + list(range(2, c["n"]))])), None)
+            return lambda: (list(mk().split(unsorted(c))), None)
 
         def control_us(c, mk=mk):
             return lambda: (list(mk().split(c["y"])), None)
@@ -263,9 +289,9 @@ def rows():
         a = dict(forecaster=NaiveForecaster(), cv=ExpandingWindowSplitter(fh=[1], initial_window=10), y=c["y"])
         a.update(kw)
         return lambda: (evaluate(**a), None)
-    for fault, kwf in (("unknown_strategy", lambda c: dict(strategy="restart")),
+    for fault, kwf in (("unknown_strategy", lambda c: dict(strategy=["restart", "Refit", "UPDATE", "refit ", ""][c["variant"] % 5])),
                        ("multivariate_target", lambda c: dict(y=pd.DataFrame({"a": c["y"], "b": c["y"]}))),
-                       ("unsorted_index", lambda c: dict(y=c["y"].iloc[[1, 0] + list(range(2, c["n"]))])),
+                       ("unsorted_index", lambda c: dict(y=unsorted(c))),
                        ("start_with_window_false", lambda c: dict(cv=ExpandingWindowSplitter(fh=[1], initial_window=10, start_with_window=False))),
                        ("scoring_not_callable", lambda c: dict(scoring="mape")),
                        ("window_larger_than_series", lambda c: dict(cv=ExpandingWindowSplitter(fh=[1], initial_window=300)))):
